@@ -112,3 +112,9 @@ Definition holds_on (c : case) : bool :=
         | None => false
         end) (seq 0 n)
   end.
+
+(** Well-formedness the generators guarantee (hypothesis of the link theorem): every
+    message is accepted by Send at most once per run and IDs are unique, i.e. the accepted
+    sends carry pairwise distinct IDs.  (A refused send is retried, so the same message may
+    occur in several [ASend] actions; only the accepted one counts.) *)
+Definition wf_case (c : case) : bool := nodupN (map m_id (sent_of (c_trace c))).
